@@ -308,7 +308,7 @@ type scriptSpec struct {
 	Op      string    `json:"op,omitempty"` // operation template with $a $b $c
 	Args    []string  `json:"args"`         // value ids
 	Depth   int       `json:"depth"`
-	Variant int       `json:"variant"` // 0 direct, 1 wrapped in try
+	Variant int       `json:"variant"`           // 0 direct, 1 wrapped in try
 	Control string    `json:"control,omitempty"` // "" | "all": cyclic and deep values replaced | "deep": deep values replaced
 }
 
